@@ -21,17 +21,6 @@ theorem interleaved_delivered_prefix (steps : List Step) :
   have := run_connOK steps {} (by intro ic h; cases h) ic hic
   exact ⟨this.1, this.2.1⟩
 
-theorem configure_ok_lastMod (l l' : Listener) (cfg : RawConfig) (h : configure l cfg = .ok l') :
-    l'.lastMod = l.clock ∧ (configureSt l cfg).1 = l' := by
-  refine ⟨?_, by simp [configureSt, h]⟩
-  unfold configure at h
-  simp only at h
-  split at h
-  · cases h
-  · split at h
-    · cases h
-    · cases h; rfl
-
 /-- **An accepted configuration applies only to connections accepted afterwards — for interleaved
 histories.**  Take any history `pre`, a configuration that is accepted in the state it leads to,
 and any continuation `post` (further rounds of Writes that were in progress, new Writes, accepts,
